@@ -6,7 +6,7 @@ CONSTANTS
   DedupDone = FALSE
   Outcomes = {"done", "eof", "http500", "drop", "empty", "junk_done"}
   Calls <- CallSet
-  Choices = {"auto", "none", "required", "fn_ls", "allowed_write"}
+  Choices = {"auto", "none", "required", "fn_ls", "allowed_write", "allowed_hosted_only"}
   Modes = {FALSE}
 INVARIANTS ExecutedOnce BarredNeverRuns Bounded Ordered
 CHECK_DEADLOCK FALSE
